@@ -137,8 +137,18 @@ def run(ctx):
     for e in ents:
         doc = meta.load(e.text())
         jobs.append((e.yaml[:-5], e.text(), e.argv(), variants_for(doc, 8 if quick else 24, ctx.seed, not quick)))
-    for name, text in smallgen.sample_libraries(ctx.seed, 12 if quick else 60):
+    for k, (name, text) in enumerate(smallgen.sample_libraries(ctx.seed, 12 if quick else 60)):
         doc = meta.load(text)
+        if k % 2 == 0:
+            # user code in the documented file-level splicer blocks (input.rst: file_top, module_use, module_top,
+            # additional_functions; CXX_definitions / C_definitions): it is code, whatever the comment options say
+            doc["splicer_code"] = {
+                "f": {"file_top": ["module vf_user_top", "  integer :: vf_top_var = 3", "end module vf_user_top"],
+                      "module_use": ["use vf_user_top, only : vf_top_var"],
+                      "module_top": ["integer, parameter :: vf_user_param = 42"],
+                      "additional_functions": ["subroutine vf_user_sub()", "end subroutine vf_user_sub"]},
+                "c": {"CXX_definitions": ["static int vf_user_cxx = 1;"], "C_definitions": ["int vf_user_c(void) { return 2; }"]}}
+            text = meta.dump(doc)
         jobs.append((name, text, [], variants_for(doc, 5 if quick else 16, ctx.seed + 1, False)))
     for out in core.pool_map(_job, jobs):
         ctx.case(n=out["runs"], label="run")
